@@ -768,6 +768,29 @@ CORPUS = [
      "renews": [2000, 3000], "data": "-"},
     {"k": "immhdr", "v": 2, "m": 2 ** 32 + 5},
     {"k": "immhdr", "v": 1, "m": 2 ** 32 - 1, "real": True},
+    # one input per remaining leniency class of the four repaired decoders
+    {"k": "nssplit", "x": hx(b"3 :abc,"), "n": 1, "pos": 0, "tr": hx(b"")},
+    {"k": "uebunpack", "x": hx(b"size:+2:12,")},
+    {"k": "uebunpack", "x": hx(b"size: 2:12,")},
+    {"k": "uebunpack", "x": hx(b"codec_name:1_0:abcdefghij,")},
+    {"k": "uebunpack", "x": hx(b"size:3:012,")},
+    {"k": "uebunpack", "x": hx(b"size:3:+12,")},
+    {"k": "uebunpack", "x": hx(b"size:3:1_2,")},
+    {"k": "uebunpack", "x": hx(b"size:2:-0,")},
+    {"k": "b32dec", "x": hx(b"aaaaaaaaac")},
+    # plain round trips of every encoder (fresh values at range edges)
+    {"k": "b32enc", "x": hx(b"\xff" * 20)},
+    {"k": "b62enc", "x": hx(b"\xff" * 32)},
+    {"k": "b62enc", "x": "-"},
+    {"k": "ns", "x": hx(b"3:abc,"), "tail": hx(b"0:,")},
+    {"k": "uebpack", "d": [[hx(b"size"), "i", 2 ** 32], [hx(b"codec_name"), "b", hx(b"crs")],
+                           [hx(b"crypttext_hash"), "b", hx(b"\x00" * 32)]]},
+    {"k": "leaseimm", "o": 2 ** 32 - 1, "r": "11" * 32, "c": "22" * 32, "e": 2 ** 32 - 1, "n": None, "ser": "v2"},
+    {"k": "leasemut", "o": 1, "r": "11" * 32, "c": "11" * 32, "e": 0, "n": "33" * 20, "ser": "v1"},
+    {"k": "leasecycle", "fmt": "imm", "ser": "v1", "o": 1, "r": "11" * 32, "c": "22" * 32, "e": 1000, "n": "33" * 20,
+     "renews": [2000, 3000]},
+    {"k": "muthdr", "v": 2, "n": "33" * 20, "w": "44" * 32},
+    {"k": "muthdr", "v": 1, "n": "33" * 20, "w": "44" * 32},
 ]
 
 
@@ -1089,7 +1112,8 @@ def run(ctx):
             cases = [ctx.replay["case"]]
         else:
             rng = ctx.rng
-            cases = list(CORPUS)
+            cases = list(CORPUS)      # fixed corpus first: one input per known mechanism, independent of the seed
+        if not ctx.replay and not os.environ.get("VERIF_CORPUS_ONLY"):
             cases += gen_base32(rng, ctx.budget(150, 6000))
             cases += gen_base62(rng, ctx.budget(120, 4000))
             cases += gen_netstring(rng, ctx.budget(200, 8000))
